@@ -200,6 +200,16 @@ fn serde_dispatch(case: &Value, data: &[u8], bf: Option<(&[u8], usize)>) -> Valu
             let mut o = channels::<MetadataWrapper>(&data, bf);
             // the crate's own byte-slice entry points for "a layout or a link"
             let reference = serde_json::from_slice::<MetadataWrapper>(&data).ok();
+            // the same decode target as `try_from_bytes` (a layout, else a link), read by serde_json's slice route
+            let typed = guarded(|| {
+                serde_json::from_slice::<LayoutMetadata>(&data)
+                    .map(MetadataWrapper::Layout)
+                    .or_else(|_| serde_json::from_slice::<LinkMetadata>(&data).map(MetadataWrapper::Link))
+                    .map_err(|e| e.to_string())
+            });
+            let (typed_v, typed_out) = res(typed);
+            o["ch"]["typed_slice"] = typed_out;
+            let mut typed_same = true;
             let mut same = true;
             for (name, r) in [
                 (
@@ -219,8 +229,12 @@ fn serde_dispatch(case: &Value, data: &[u8], bf: Option<(&[u8], usize)>) -> Valu
                 if let (Some(v), Some(rf)) = (&v, &reference) {
                     same &= v == rf;
                 }
+                if let (Some(v), Some(tv)) = (&v, &typed_v) {
+                    typed_same &= v == tv;
+                }
                 o["ch"][name] = out;
             }
+            o["typed_eq"] = json!(typed_same);
             if !same {
                 o["all_eq"] = json!(false);
             }
